@@ -100,6 +100,9 @@ struct Entry {
 
         // forest index
         parmcb::ForestIndex<graph_t> forest_index(g);
+        parmcb::ForestIndex<graph_t> forest_index_copy(forest_index);
+        forest_index_copy = forest_index;
+        r += forest_index_copy.cycle_space_dimension();
         r += forest_index.cycle_space_dimension();
         r += forest_index.weak_connected_components();
         for (auto e : boost::make_iterator_range(boost::edges(g))) {
